@@ -114,6 +114,19 @@ def run_all() -> list[dict]:
     return out
 
 
+def l4_instance(sh_, st_, key_, l_, n_):
+    """L4 (proved above for arbitrary constants, hence for any terms): the row-major linear index of the unravelled
+    key is the index itself.  Returns  setup(sh_, st_, key_, l_, n_) => dot(key_, st_, n_) = l_  for use as a hypothesis
+    (a lemma instance) in a VC."""
+    i = z3.Int("lm_i")
+    setup = z3.And(n_ >= 0, z3.ForAll([i], z3.Implies(z3.And(0 <= i, i < n_), z3.Select(sh_, i) > 0)),
+                   z3.ForAll([i], z3.Implies(z3.And(0 <= i, i < n_), z3.Select(st_, i) == f_prod(sh_, i + 1, n_))),
+                   z3.ForAll([i], z3.Implies(z3.And(0 <= i, i < n_),
+                                             z3.Select(key_, i) == (l_ / z3.Select(st_, i)) % z3.Select(sh_, i))),
+                   0 <= l_, l_ < f_prod(sh_, 0, n_))
+    return z3.Implies(setup, f_dot(key_, st_, n_) == l_)
+
+
 if __name__ == "__main__":
     for r in run_all():
         print(r)
